@@ -1074,4 +1074,169 @@ theorem findDA_sound (P : Problem S U α ρ) (starts : List S) (ms : Array (PMot
               rw [hp] at h2; cases Option.some.inj h2
               exact h5
 
+/-! ## the ancestor walk of the path assembly -/
+
+theorem stop_onchain (P : Problem S U α ρ) (starts : List S) (ms : Array (PMotion S U α)) (n : Nat)
+    (hI : MInv P starts ms n) (p : Nat) (pm : PMotion S U α) (hpm : ms[p]? = some pm) :
+    OnChain P.step ms p pm.stop := by
+  rcases hI.seg p pm hpm with hr | ⟨u, s1, _, _, s4, _⟩
+  · exact .root hpm hr.1 rfl
+  · exact .here hpm s1 (Nat.le_refl _) s4
+
+theorem parent_onchain (P : Problem S U α ρ) (starts : List S) (ms : Array (PMotion S U α)) (n : Nat)
+    (hI : MInv P starts ms n) (m p : Nat) (mm : PMotion S U α) (hm : ms[m]? = some mm)
+    (hp : mm.parent = some p) : OnChain P.step ms p mm.start := by
+  rcases hI.seg m mm hm with hr | ⟨u, _, _, _, _, _, _, p', pm, s7, s8, s9⟩
+  · simp only [core] at hr; rw [hp] at hr; cases hr.2.2.2.2.2.2
+  · have s7 : mm.parent = some p' := s7
+    rw [hp] at s7; cases Option.some.inj s7
+    rcases s9 with ⟨_, t2, _⟩ | ⟨_, t2⟩
+    · have t2 : mm.start = pm.stop := t2
+      rw [t2]; exact stop_onchain P starts ms n hI p pm s8
+    · exact t2
+
+/-- the hops of `assembleLoop` from ancestor `m` up to a start motion -/
+def Hops (P : Problem S U α ρ) (ms : Array (PMotion S U α)) : Nat → List Nat → List Nat → Prop
+  | m, [], [] => ∃ mm, ms[m]? = some mm ∧ mm.parent = none
+  | m, d :: ds, a :: as => ∃ mm p, ms[m]? = some mm ∧ mm.parent = some p ∧ Res P ms mm.start d a ∧ Hops P ms a ds as
+  | _, _, _ => False
+
+theorem assembleLoop_spec (P : Problem S U α ρ) (starts : List S) (ms : Array (PMotion S U α)) (n : Nat)
+    (hI : MInv P starts ms n) (hclose : ∀ a b, P.close a b = true → a = b) (hrefl : ∀ a, P.close a a = true)
+    (hmin : 1 ≤ P.minSteps) :
+    ∀ (fuel m : Nat) (durs mpath D M : List Nat), assembleLoop P ms fuel m durs mpath = some (D, M) →
+      ∃ ds as, D = durs ++ ds ∧ M = mpath ++ as ∧ Hops P ms m ds as := by
+  intro fuel
+  induction fuel with
+  | zero => intro m durs mpath D M h; simp [assembleLoop] at h
+  | succ fuel ih =>
+    intro m durs mpath D M h
+    simp only [assembleLoop] at h
+    cases hm : ms[m]? with
+    | none => rw [hm] at h; cases h
+    | some mm =>
+      rw [hm] at h
+      simp only at h
+      cases hp : mm.parent with
+      | none =>
+        rw [hp] at h
+        simp only [Option.some.injEq, Prod.mk.injEq] at h
+        exact ⟨[], [], by simp [h.1], by simp [h.2], mm, hm, hp⟩
+      | some p =>
+        rw [hp] at h
+        simp only at h
+        cases hf : findDA P ms mm.start ms.size p with
+        | none => rw [hf] at h; cases h
+        | some da =>
+          obtain ⟨d, a⟩ := da
+          rw [hf] at h
+          simp only at h
+          have hres := findDA_sound P starts ms n hI hclose hrefl hmin mm.start ms.size p d a
+            (parent_onchain P starts ms n hI m p mm hm hp) hf
+          obtain ⟨ds, as, e1, e2, e3⟩ := ih a _ _ D M h
+          exact ⟨d :: ds, a :: as, by rw [e1]; simp, by rw [e2]; simp, mm, p, hm, hp, hres, e3⟩
+
+/-- one reported segment: from the start of ancestor `a` for `d` steps of its control to the start of `prev` -/
+def hop (ms : Array (PMotion S U α)) (prev a d : Nat) : Option (S × U × Nat) :=
+  match ms[prev]?, ms[a]? with
+  | some x, some b => b.control.map fun u => (x.start, u, d)
+  | _, _ => none
+
+/-- the middle segments, last hop (to the start motion) excluded, nearest first -/
+def midL (ms : Array (PMotion S U α)) : Nat → List Nat → List Nat → List (S × U × Nat)
+  | prev, d :: d' :: ds, a :: a' :: as => (hop ms prev a d).toList ++ midL ms a (d' :: ds) (a' :: as)
+  | _, _, _ => []
+
+def toSegs (l : List (S × U × Nat)) : List (U × Nat × S) := l.map fun x => (x.2.1, x.2.2, x.1)
+
+/-- the last motion index of the walk -/
+def lastOf : Nat → List Nat → Nat
+  | a, [] => a
+  | _, a' :: as => lastOf a' as
+
+theorem hops_replay (P : Problem S U α ρ) (starts : List S) (ms : Array (PMotion S U α)) (n : Nat)
+    (hI : MInv P starts ms n) :
+    ∀ (ds as : List Nat) (a : Nat) (am : PMotion S U α), ms[a]? = some am → Hops P ms a ds as →
+      ∃ root, ms[lastOf a as]? = some root ∧ root.stop ∈ starts ∧ P.valid root.stop = true ∧
+        ReplayOK P.step P.valid root.stop (toSegs (midL ms a ds as).reverse) ∧
+        endState root.stop (toSegs (midL ms a ds as).reverse) = am.start := by
+  intro ds
+  induction ds with
+  | nil =>
+    intro as a am ha h
+    cases as with
+    | cons _ _ => exact absurd h (by simp [Hops])
+    | nil =>
+      obtain ⟨mm, h1, h2⟩ := h
+      rw [ha] at h1; cases Option.some.inj h1
+      rcases hI.seg a am ha with hr | ⟨_, _, _, _, _, _, _, p, _, s7, _⟩
+      · simp only [core] at hr
+        refine ⟨am, ha, by rw [← hr.2.2.2.1]; exact hr.2.2.2.2.1, by rw [← hr.2.2.2.1]; exact hr.2.2.2.2.2.1, ?_, ?_⟩
+        · simp [midL, toSegs, ReplayOK]
+        · simp only [midL, toSegs, List.reverse_nil, List.map_nil, endState]; exact hr.2.2.2.1.symm
+      · have s7 : am.parent = some p := s7
+        rw [h2] at s7; cases s7
+  | cons d ds ih =>
+    intro as a am ha h
+    cases as with
+    | nil => exact absurd h (by simp [Hops])
+    | cons a' as =>
+      obtain ⟨mm, p, h1, h2, hres, hrest⟩ := h
+      rw [ha] at h1; cases Option.some.inj h1
+      obtain ⟨a'm, ha', hr'⟩ := hres
+      obtain ⟨root, r1, r2, r3, r4, r5⟩ := ih as a' a'm ha' hrest
+      refine ⟨root, r1, r2, r3, ?_⟩
+      cases ds with
+      | nil =>
+        cases as with
+        | cons _ _ => exact absurd hrest (by simp [Hops])
+        | nil =>
+          -- `a'` is the start motion: `am.start` is its state
+          obtain ⟨mm', e1, e2⟩ := hrest
+          rw [ha'] at e1; cases Option.some.inj e1
+          have hroot : a'm.control = none := by
+            rcases hI.seg a' a'm ha' with hr | ⟨_, _, _, _, _, _, _, p', _, s7, _⟩
+            · exact hr.1
+            · have s7 : a'm.parent = some p' := s7
+              rw [e2] at s7; cases s7
+          have hst : am.start = a'm.stop := by
+            rcases hr' with ⟨_, _, c⟩ | ⟨u, c, _⟩
+            · exact c
+            · rw [hroot] at c; cases c
+          have : lastOf a' [] = a' := rfl
+          rw [this, ha'] at r1; cases Option.some.inj r1
+          refine ⟨by simp [midL, toSegs, ReplayOK], ?_⟩
+          simp only [midL, toSegs, List.reverse_nil, List.map_nil, endState]; exact hst.symm
+      | cons d' ds' =>
+        cases as with
+        | nil => exact absurd hrest (by simp [Hops])
+        | cons a'' as' =>
+          -- `a'` is a segment
+          obtain ⟨mm', p', e1, e2, _, _⟩ := hrest
+          rw [ha'] at e1; cases Option.some.inj e1
+          obtain ⟨u, hu, hst, hval⟩ : ∃ u, a'm.control = some u ∧ am.start = propagate P.step a'm.start u d ∧
+              ∀ j, 1 ≤ j → j ≤ d → P.valid (propagate P.step a'm.start u j) = true := by
+            rcases hr' with ⟨c, _, _⟩ | ⟨u, c1, c2, c3⟩
+            · rcases hI.seg a' a'm ha' with hr | ⟨u, s1, _⟩
+              · simp only [core] at hr; rw [e2] at hr; cases hr.2.2.2.2.2.2
+              · have s1 : a'm.control = some u := s1
+                rw [c] at s1; cases s1
+            · exact ⟨u, c1, c2, c3⟩
+          have hmid : midL ms a (d :: d' :: ds') (a' :: a'' :: as') =
+              [(am.start, u, d)] ++ midL ms a' (d' :: ds') (a'' :: as') := by
+            simp only [midL, hop, ha, ha', hu, Option.map_some, Option.toList_some]
+          rw [hmid]
+          simp only [List.reverse_append, List.reverse_cons, List.reverse_nil, List.nil_append, toSegs,
+            List.map_append, List.map_cons, List.map_nil]
+          have r4' : ReplayOK P.step P.valid root.stop
+              (List.map (fun x => (x.2.1, x.2.2, x.1)) (midL ms a' (d' :: ds') (a'' :: as')).reverse) := r4
+          have r5' : endState root.stop
+              (List.map (fun x => (x.2.1, x.2.2, x.1)) (midL ms a' (d' :: ds') (a'' :: as')).reverse) = a'm.start := r5
+          refine ⟨?_, ?_⟩
+          · rw [replayOK_append]
+            refine ⟨r4', ?_⟩
+            rw [r5']
+            exact ⟨hst.symm, hval, trivial⟩
+          · rw [endState_append, r5']; rfl
+
 end OmplModel.CPDST
